@@ -14,6 +14,7 @@ import (
 	"github.com/EliCDavis/polyform/modeling"
 	"github.com/EliCDavis/polyform/modeling/primitives"
 	"github.com/EliCDavis/vector/vector2"
+	"github.com/EliCDavis/vector/vector3"
 	"pgregory.net/rapid"
 
 	"verifharness/internal/oracle"
@@ -499,6 +500,30 @@ func runCase(c Case, o *vh.Obs) *vh.Failure {
 			o.Count("hemisphere_uncapped_not_closed", 1)
 		}
 		return nil
+	}
+	// what a program did before it asks for this solid must not matter. Two histories, chosen by the
+	// case's own parameters: (1) two solids of the same family and resolution with other sizes were
+	// built first (a resolution kept while a size slider moves); (2) a solid of this kind was already
+	// appended to a mesh that holds only loose vertices, and to an empty mesh (assembling a scene).
+	if c.Rows < 300 && c.Cols < 300 {
+		switch (c.Rows*7 + c.Cols*3 + len(c.Family) + c.UV) % 3 {
+		case 1:
+			for _, k := range []float64{2, 3} {
+				prev := c
+				prev.R, prev.H, prev.W, prev.D = c.R*k, c.H*k, c.W*k, c.D*k
+				if prev.admissible() {
+					oracle.Try(func() { build(prev) })
+				}
+			}
+			o.Class("history/two-solids-of-this-resolution-and-other-sizes-built-before")
+		case 2:
+			oracle.Try(func() {
+				loose := modeling.NewTriangleMesh(nil).SetFloat3Attribute(modeling.PositionAttribute, []vector3.Float64{vector3.New(9., 9, 9), vector3.New(8., 9, 9), vector3.New(9., 8, 9)})
+				loose.Append(build(c))
+				modeling.EmptyMesh(modeling.TriangleTopology).Append(build(c))
+			})
+			o.Class("history/a-solid-of-this-kind-appended-to-loose-vertices-before")
+		}
 	}
 	var m modeling.Mesh
 	if c.Family == famCubeWelded && c.UV > 1 && c.UV < 64 {
